@@ -473,6 +473,10 @@ func main() {
 					roles = append(roles, s)
 					addStage("roles_check")
 				}
+			case strings.HasSuffix(ft, "submit") && len(x.Args) == 1:
+				if _, isLit := x.Args[0].(*ast.FuncLit); isLit {
+					addStage("realm_lookup")
+				}
 			case strings.HasSuffix(ft, "authClient"):
 				addStage("auth_client")
 			case strings.HasSuffix(ft, "handleSession"):
@@ -582,6 +586,36 @@ func main() {
 	w("Definition gen_assembly : list (string * list string) := [%s].", strings.Join(ls, "; "))
 	w("Definition gen_session_key : string := %s.", cs(sessionKey))
 	w("Definition gen_stages : list string := %s.", clist(stages))
+
+	// ---- handleSession: realm-closed check, onJoin, (WELCOME), handler start
+	hs := findFunc(realmF, "realm", "handleSession")
+	if hs == nil {
+		fatal("realm.handleSession not found")
+	}
+	var hsSteps []string
+	for _, st := range hs.Body.List {
+		switch x := st.(type) {
+		case *ast.IfStmt:
+			if strings.HasSuffix(exprText(x.Cond), "closed") && len(x.Body.List) > 0 {
+				if ret, ok := x.Body.List[len(x.Body.List)-1].(*ast.ReturnStmt); ok && len(ret.Results) == 1 {
+					hsSteps = append(hsSteps, "closed_check_returns_error")
+				}
+			}
+		case *ast.ExprStmt:
+			if strings.HasSuffix(exprText(x.X), "onJoin sess") || strings.Contains(exprText(x.X), "onJoin") {
+				hsSteps = append(hsSteps, "on_join")
+			}
+		case *ast.SendStmt:
+			if strings.HasSuffix(exprText(x.Chan), "Send") && exprText(x.Value) == "welcome" {
+				hsSteps = append(hsSteps, "send_welcome")
+			}
+		case *ast.GoStmt:
+			if strings.Contains(exprText(x.Call), "handleInboundMessages") {
+				hsSteps = append(hsSteps, "start_handler")
+			}
+		}
+	}
+	w("Definition gen_handle_session_steps : list string := %s.", clist(hsSteps))
 
 	// ---- authClient
 	ac := findFunc(realmF, "realm", "authClient")
